@@ -1,11 +1,461 @@
-(* Proofs about the DSSP model (C15). *)
+(* Proofs about the DSSP model (C15): the sequential loops of dssp.cpp are characterised by
+   declarative (order-free) rules. *)
 From Coq Require Import List Arith Bool String Ascii Lia.
 Import ListNotations.
 Require Import MD.Gen.DsspTables MD.Dssp.Model.
 Local Open Scope nat_scope.
 
+(* ------------------------------------------------------------------ list utilities *)
 Lemma map_idx_length : forall A (f : nat -> A -> A) l k, List.length (map_idx f k l) = List.length l.
 Proof. induction l as [|x r IH]; intros k; cbn; [reflexivity|]. now rewrite IH. Qed.
 
 Lemma update_range_length : forall A lo hi (f : A -> A) l, List.length (update_range lo hi f l) = List.length l.
 Proof. intros. apply map_idx_length. Qed.
+
+Lemma map_idx_nth : forall A (f : nat -> A -> A) l k r d, r < List.length l ->
+  nth r (map_idx f k l) d = f (k + r) (nth r l d).
+Proof.
+  induction l as [|x l IH]; intros k r d Hr; cbn in *; [lia|].
+  destruct r as [|r]; [now rewrite Nat.add_0_r|].
+  rewrite IH by lia. now replace (S k + r) with (k + S r) by lia.
+Qed.
+
+Lemma map_idx_nth_out : forall A (f : nat -> A -> A) l k r d, List.length l <= r ->
+  nth r (map_idx f k l) d = d.
+Proof. intros. apply nth_overflow. now rewrite map_idx_length. Qed.
+
+Lemma update_range_nth : forall A lo hi (f : A -> A) l r d, r < List.length l ->
+  nth r (update_range lo hi f l) d = if in_range lo hi r then f (nth r l d) else nth r l d.
+Proof. intros. unfold update_range. now rewrite map_idx_nth. Qed.
+
+Lemma update_range_nth_out : forall A lo hi (f : A -> A) l r d, List.length l <= r ->
+  nth r (update_range lo hi f l) d = nth r l d.
+Proof. intros. unfold update_range. rewrite map_idx_nth_out by assumption. now rewrite nth_overflow. Qed.
+
+Lemma in_range_iff : forall lo hi k, in_range lo hi k = true <-> lo <= k <= hi.
+Proof. intros. unfold in_range. rewrite andb_true_iff, !Nat.leb_le. tauto. Qed.
+
+Lemma fold_left_length : forall A B (f : list A -> B -> list A) (l : list B) (s : list A),
+  (forall s x, List.length (f s x) = List.length s) -> List.length (fold_left f l s) = List.length s.
+Proof. induction l as [|x l IH]; intros s H; cbn; [reflexivity|]. rewrite IH by assumption. apply H. Qed.
+
+Lemma sec_at_update : forall lo hi (f : ss -> ss) sec r,
+  sec_at (update_range lo hi f sec) r =
+  if in_range lo hi r && (r <? List.length sec) then f (sec_at sec r) else sec_at sec r.
+Proof.
+  intros. unfold sec_at. destruct (r <? List.length sec) eqn:E.
+  - apply Nat.ltb_lt in E. rewrite update_range_nth by assumption. now rewrite andb_true_r.
+  - apply Nat.ltb_ge in E. rewrite update_range_nth_out by assumption. now rewrite andb_false_r.
+Qed.
+
+(* ------------------------------------------------------------------ lengths: one code per residue *)
+Lemma mark_bridge_length : forall sec b, List.length (mark_bridge sec b) = List.length sec.
+Proof. intros. unfold mark_bridge. now rewrite !update_range_length. Qed.
+
+Lemma beta_length : forall n ch skip hb sec,
+  List.length (calculate_beta_sheets n ch skip hb sec) = List.length sec.
+Proof. intros. unfold calculate_beta_sheets. apply fold_left_length. apply mark_bridge_length. Qed.
+
+Lemma helix_step_length : forall fl w ok v sec i, List.length (helix_step fl w ok v sec i) = List.length sec.
+Proof. intros. unfold helix_step. destruct (_ && _); [apply update_range_length|reflexivity]. Qed.
+
+Lemma alpha_length : forall n ch skip hb geom sec,
+  List.length (calculate_alpha_helices n ch skip hb geom sec) = List.length sec.
+Proof.
+  intros. unfold calculate_alpha_helices. rewrite map_idx_length.
+  rewrite !(fold_left_length _ _ (helix_step _ _ _ _)); auto using helix_step_length.
+Qed.
+
+Lemma dssp_frame_length : forall n ch skip hb geom, List.length (dssp_frame n ch skip hb geom) = n.
+Proof. intros. unfold dssp_frame. now rewrite alpha_length, beta_length, repeat_length. Qed.
+
+Lemma overlay_length : forall codes skip, List.length (overlay skip codes) = List.length codes.
+Proof. induction codes as [|c r IH]; intros skip; cbn; [reflexivity|]. now rewrite IH. Qed.
+
+Lemma compute_dssp_length : forall simp n ch skip hb geom,
+  List.length (compute_dssp simp n ch skip hb geom) = n.
+Proof. intros. unfold compute_dssp. now rewrite overlay_length, map_length, dssp_frame_length. Qed.
+
+(* ------------------------------------------------------------------ the marking loop of the sheets *)
+Definition covers (b : bridge) (r : nat) : bool :=
+  in_range (front (b_i b)) (back (b_i b)) r || in_range (front (b_j b)) (back (b_j b)) r.
+Definition is_ladder (b : bridge) : bool := 1 <? List.length (b_i b).
+
+Lemma keep_strand_twice : forall s x, keep_strand s (keep_strand s x) = keep_strand s x.
+Proof. intros s x. unfold keep_strand. destruct (ss_eqb x SS_STRAND) eqn:E; [now rewrite E|]. destruct (ss_eqb s SS_STRAND); reflexivity. Qed.
+
+Lemma mark_bridge_at : forall sec b r, r < List.length sec ->
+  sec_at (mark_bridge sec b) r =
+  if covers b r then keep_strand (if is_ladder b then SS_STRAND else SS_BETABRIDGE) (sec_at sec r)
+  else sec_at sec r.
+Proof.
+  intros sec b r Hr. unfold mark_bridge, covers, is_ladder.
+  rewrite !sec_at_update, update_range_length.
+  apply Nat.ltb_lt in Hr. rewrite Hr, !andb_true_r.
+  destruct (in_range (front (b_j b)) _ r), (in_range (front (b_i b)) _ r); cbn; try reflexivity.
+  apply keep_strand_twice.
+Qed.
+
+Lemma ss_eqb_eq : forall a b, ss_eqb a b = true <-> a = b.
+Proof. intros a b; split; [destruct a, b; cbn; congruence | intros ->; destruct b; reflexivity]. Qed.
+
+(* after the marking loop: STRAND if some ladder covers r (or it was STRAND), else BETABRIDGE if some
+   bridge covers r, else unchanged *)
+Lemma marking_spec : forall bs sec r, r < List.length sec ->
+  sec_at (fold_left mark_bridge bs sec) r =
+  if ss_eqb (sec_at sec r) SS_STRAND || existsb (fun b => covers b r && is_ladder b) bs then SS_STRAND
+  else if existsb (fun b => covers b r) bs then SS_BETABRIDGE
+  else sec_at sec r.
+Proof.
+  induction bs as [|b bs IH]; intros sec r Hr; cbn [fold_left existsb].
+  - rewrite orb_false_r. destruct (ss_eqb (sec_at sec r) SS_STRAND) eqn:E; [now apply ss_eqb_eq in E|reflexivity].
+  - rewrite IH by now rewrite mark_bridge_length. rewrite mark_bridge_at by assumption.
+    destruct (covers b r) eqn:C; cbn [andb orb]; [|reflexivity].
+    unfold keep_strand.
+    destruct (ss_eqb (sec_at sec r) SS_STRAND) eqn:E; cbn [orb]; [now rewrite E|].
+    destruct (is_ladder b) eqn:L; cbn [ss_eqb orb]; [reflexivity|].
+    destruct (existsb (fun b0 => covers b0 r && is_ladder b0) bs); [reflexivity|].
+    destruct (existsb (fun b0 => covers b0 r) bs); reflexivity.
+Qed.
+
+Lemma forallb_ext_all : forall A (f g : A -> bool) l, (forall x, f x = g x) -> forallb f l = forallb g l.
+Proof. induction l as [|x l IH]; intros H; cbn; [reflexivity|]. now rewrite H, IH. Qed.
+
+(* ------------------------------------------------------------------ one helix stage (H, G or I loop) *)
+Section Stage.
+  Variables (fl : list hflag) (w : nat) (ok : ss -> bool) (v : ss).
+  Hypothesis ok_v : ok v = true.
+
+  (* the loop body fires at i, judged on the secondary structure BEFORE the loop *)
+  Definition trig (sec0 : list ss) (i : nat) : bool :=
+    is_start fl i && is_start fl (i - 1) && forallb (fun j => ok (sec_at sec0 j)) (seq i (S w)).
+  Definition stage_cov (sec0 : list ss) (is : list nat) (r : nat) : bool :=
+    existsb (fun i => trig sec0 i && in_range i (i + w) r) is.
+
+  Lemma stage_cov_ok : forall sec0 is j, stage_cov sec0 is j = true -> ok (sec_at sec0 j) = true.
+  Proof.
+    intros sec0 is j H. unfold stage_cov in H. apply existsb_exists in H as (i & _ & H).
+    apply andb_true_iff in H as (T & R). unfold trig in T. apply andb_true_iff in T as (_ & T).
+    rewrite forallb_forall in T. apply T. apply in_seq. apply in_range_iff in R. lia.
+  Qed.
+
+  Lemma stage_spec : forall is sec0, (forall i, In i is -> i + w < List.length sec0) ->
+    List.length (fold_left (helix_step fl w ok v) is sec0) = List.length sec0 /\
+    forall r, sec_at (fold_left (helix_step fl w ok v) is sec0) r =
+              if stage_cov sec0 is r then v else sec_at sec0 r.
+  Proof.
+    induction is as [|i l IH] using rev_ind; intros sec0 Hb.
+    - cbn. split; [reflexivity|]. intros r. reflexivity.
+    - rewrite fold_left_app. cbn [fold_left].
+      destruct (IH sec0) as (Hlen & Hat); [intros; apply Hb, in_or_app; now left|].
+      set (cur := fold_left (helix_step fl w ok v) l sec0) in *.
+      split; [now rewrite helix_step_length|].
+      intros r. unfold stage_cov. rewrite existsb_app. cbn [existsb]. rewrite orb_false_r.
+      fold (stage_cov sec0 l r).
+      assert (Hok : forallb (fun j => ok (sec_at cur j)) (seq i (S w)) =
+                    forallb (fun j => ok (sec_at sec0 j)) (seq i (S w))).
+      { apply forallb_ext_all. intros j. rewrite Hat.
+        destruct (stage_cov sec0 l j) eqn:C; [|reflexivity].
+        rewrite ok_v. symmetry. now apply stage_cov_ok with (is := l). }
+      unfold helix_step. rewrite Hok. fold (trig sec0 i).
+      destruct (trig sec0 i) eqn:T; cbn [andb].
+      + rewrite sec_at_update, Hat, Hlen.
+        destruct (in_range i (i + w) r) eqn:R; cbn [andb].
+        * assert (r < List.length sec0).
+          { apply in_range_iff in R. specialize (Hb i). rewrite in_app_iff in Hb. cbn in Hb.
+            assert (i + w < List.length sec0) by (apply Hb; right; now left). lia. }
+          apply Nat.ltb_lt in H. rewrite H. now rewrite orb_true_r.
+        * now rewrite orb_false_r.
+      + rewrite Hat. now rewrite orb_false_r.
+  Qed.
+End Stage.
+
+(* ------------------------------------------------------------------ helix flags = n-turns *)
+Lemma nth_update_range : forall A lo hi (f : A -> A) l r d,
+  nth r (update_range lo hi f l) d =
+  if in_range lo hi r && (r <? List.length l) then f (nth r l d) else nth r l d.
+Proof.
+  intros. destruct (r <? List.length l) eqn:E.
+  - apply Nat.ltb_lt in E. rewrite update_range_nth by assumption. now rewrite andb_true_r.
+  - apply Nat.ltb_ge in E. rewrite update_range_nth_out by assumption. now rewrite andb_false_r.
+Qed.
+
+(* an n-turn at i with n = s: H-bond from the NH of residue i+s to the CO of residue i, same chain *)
+Definition turnb (n : nat) (ch : list nat) (hb : hbtable) (s i : nat) : bool :=
+  (i + s <? n) && test_bond hb (i + s) i && (chain_at ch i =? chain_at ch (i + s)).
+
+Lemma flag_step_start : forall n ch hb s fl i r, List.length fl = n -> 1 <= s ->
+  is_start (flag_step n ch hb s fl i) r =
+  if turnb n ch hb s i then (if r =? i then true else if r =? i + s then false else is_start fl r)
+  else is_start fl r.
+Proof.
+  intros n ch hb s fl i r Hlen Hs. unfold flag_step. fold (turnb n ch hb s i).
+  destruct (turnb n ch hb s i) eqn:T; [|reflexivity].
+  assert (Hin : i + s < n).
+  { unfold turnb in T. apply andb_true_iff in T as (T & _). apply andb_true_iff in T as (T & _).
+    now apply Nat.ltb_lt in T. }
+  set (f1 := set_at (i + s) HELIX_END fl).
+  set (g := fun x => match x with HELIX_NONE => HELIX_MIDDLE | _ => x end).
+  set (f2 := update_range (i + 1) (i + s - 1) g f1).
+  assert (L1 : List.length f1 = n) by (unfold f1, set_at; now rewrite update_range_length).
+  assert (L2 : List.length f2 = n) by (unfold f2; now rewrite update_range_length).
+  assert (Hfin : forall X, (X = HELIX_START \/ X = HELIX_START_AND_END) ->
+     is_start (set_at i X f2) r =
+     (if r =? i then true else if r =? i + s then false else is_start fl r)).
+  { intros X HX. unfold is_start, flag_at, set_at. rewrite nth_update_range, L2.
+    unfold in_range. destruct (Nat.eqb_spec r i) as [->|Hne].
+    - rewrite !Nat.leb_refl. cbn [andb]. assert (E : i <? n = true) by (apply Nat.ltb_lt; lia).
+      rewrite E. destruct HX as [-> | ->]; reflexivity.
+    - assert (E : (i <=? r) && (r <=? i) = false).
+      { destruct (i <=? r) eqn:A, (r <=? i) eqn:B; try reflexivity.
+        apply Nat.leb_le in A, B. lia. }
+      rewrite E. cbn [andb]. unfold f2. rewrite nth_update_range, L1.
+      unfold f1. unfold set_at. rewrite !nth_update_range, Hlen.
+      unfold in_range. destruct (Nat.eqb_spec r (i + s)) as [->|Hne2].
+      + rewrite !Nat.leb_refl. assert (E2 : i + s <? n = true) by (apply Nat.ltb_lt; lia).
+        rewrite E2. cbn [andb].
+        assert (E3 : (i + s <=? i + s - 1) = false) by (apply Nat.leb_gt; lia).
+        rewrite E3, andb_false_r. cbn [andb]. reflexivity.
+      + assert (E2 : (i + s <=? r) && (r <=? i + s) = false).
+        { destruct (i + s <=? r) eqn:A, (r <=? i + s) eqn:B; try reflexivity.
+          apply Nat.leb_le in A, B. lia. }
+        rewrite E2. cbn [andb].
+        destruct ((i + 1 <=? r) && (r <=? i + s - 1) && (r <? n)); [|reflexivity].
+        unfold g. destruct (nth r fl HELIX_NONE); reflexivity. }
+  destruct (flag_at f2 i); apply Hfin; auto.
+Qed.
+
+Lemma flag_step_length : forall n ch hb s fl i, List.length (flag_step n ch hb s fl i) = List.length fl.
+Proof.
+  intros. unfold flag_step. destruct (_ && _); [|reflexivity].
+  destruct (flag_at _ i); unfold set_at; now rewrite !update_range_length.
+Qed.
+
+(* the order in which residues are visited only has to list every residue once and to visit the
+   residues of one chain in increasing order *)
+Definition visits_chainwise (ch : list nat) (ord : list nat) : Prop :=
+  forall l1 i l2, ord = l1 ++ i :: l2 ->
+    forall j, In j l1 -> ~ (chain_at ch j = chain_at ch i /\ i <= j).
+
+Lemma flags_fold : forall n ch hb s, 1 <= s -> forall l2 l1 fl,
+  visits_chainwise ch (l1 ++ l2) ->
+  List.length fl = n ->
+  (forall r, is_start fl r = existsb (Nat.eqb r) l1 && turnb n ch hb s r) ->
+  forall r, is_start (fold_left (flag_step n ch hb s) l2 fl) r =
+            existsb (Nat.eqb r) (l1 ++ l2) && turnb n ch hb s r.
+Proof.
+  intros n ch hb s Hs. induction l2 as [|i l2 IH]; intros l1 fl Hv Hlen Hinv r.
+  - cbn. now rewrite app_nil_r.
+  - cbn [fold_left]. replace (l1 ++ i :: l2) with ((l1 ++ [i]) ++ l2) in * by now rewrite <- app_assoc.
+    apply IH; [assumption | now rewrite flag_step_length |].
+    intros r0. rewrite flag_step_start by assumption. rewrite existsb_app. cbn [existsb]. rewrite orb_false_r.
+    destruct (turnb n ch hb s i) eqn:T.
+    + destruct (Nat.eqb_spec r0 i) as [->|Hne].
+      * now rewrite orb_true_r, T.
+      * rewrite orb_false_r. destruct (Nat.eqb_spec r0 (i + s)) as [->|Hne2]; [|apply Hinv].
+        (* i+s is in the chain of i and larger: it cannot have been visited yet *)
+        destruct (existsb (Nat.eqb (i + s)) l1) eqn:E; [|reflexivity].
+        exfalso. apply existsb_exists in E as (j & Hj & Ej). apply Nat.eqb_eq in Ej. subst j.
+        refine (Hv l1 i l2 _ (i + s) Hj _); [now rewrite <- app_assoc|].
+        unfold turnb in T. apply andb_true_iff in T as (_ & T). apply Nat.eqb_eq in T. split; [auto|lia].
+    + rewrite Hinv. destruct (Nat.eqb_spec r0 i) as [->|Hne]; [|now rewrite orb_false_r].
+      now rewrite T, !andb_false_r.
+Qed.
+
+(* chain_order visits chain by chain, each chain in increasing residue order *)
+From Coq Require Import Sorting.Sorted.
+
+Definition lt2 (ch : list nat) (a b : nat) : Prop :=
+  chain_at ch a < chain_at ch b \/ (chain_at ch a = chain_at ch b /\ a < b).
+
+Lemma SS_app : forall A (R : A -> A -> Prop) l1 l2,
+  StronglySorted R l1 -> StronglySorted R l2 -> (forall a b, In a l1 -> In b l2 -> R a b) ->
+  StronglySorted R (l1 ++ l2).
+Proof.
+  induction l1 as [|x l1 IH]; intros l2 H1 H2 H; cbn; [assumption|].
+  apply StronglySorted_inv in H1 as (H1 & F). constructor.
+  - apply IH; auto. intros; apply H; cbn; auto.
+  - apply Forall_app. split; [assumption|]. apply Forall_forall. intros b Hb. apply H; cbn; auto.
+Qed.
+
+Lemma SS_seq : forall k a, StronglySorted lt (seq a k).
+Proof.
+  induction k as [|k IH]; intros a; cbn; constructor; [apply IH|].
+  apply Forall_forall. intros x Hx. apply in_seq in Hx. lia.
+Qed.
+
+Lemma SS_filter : forall A (R : A -> A -> Prop) (p : A -> bool) l,
+  StronglySorted R l -> StronglySorted R (filter p l).
+Proof.
+  induction l as [|x l IH]; intros H; cbn; [constructor|].
+  apply StronglySorted_inv in H as (H & F). destruct (p x); [|auto].
+  constructor; [auto|]. rewrite Forall_forall in *. intros y Hy. apply filter_In in Hy as (Hy & _). auto.
+Qed.
+
+Lemma SS_weaken : forall A (R S : A -> A -> Prop) l,
+  (forall a b, In a l -> In b l -> R a b -> S a b) -> StronglySorted R l -> StronglySorted S l.
+Proof.
+  induction l as [|x l IH]; intros H HS; [constructor|].
+  apply StronglySorted_inv in HS as (HS & F). constructor.
+  - apply IH; [|assumption]. intros; apply H; cbn; auto.
+  - rewrite Forall_forall in *. intros y Hy. apply H; cbn; auto.
+Qed.
+
+Lemma SS_split : forall A (R : A -> A -> Prop) l1 x l2,
+  StronglySorted R (l1 ++ x :: l2) -> forall y, In y l1 -> R y x.
+Proof.
+  induction l1 as [|a l1 IH]; intros x l2 H y Hy; [destruct Hy|].
+  cbn in H. apply StronglySorted_inv in H as (H & F). destruct Hy as [->|Hy].
+  - rewrite Forall_forall in F. apply F. apply in_or_app. right. now left.
+  - eapply IH; eauto.
+Qed.
+
+Lemma chain_order_sorted : forall n ch, StronglySorted (lt2 ch) (chain_order n ch).
+Proof.
+  intros n ch. unfold chain_order.
+  assert (G : forall cs, StronglySorted lt cs ->
+              StronglySorted (lt2 ch) (flat_map (fun c => filter (fun i => chain_at ch i =? c) (seq 0 n)) cs)).
+  { induction cs as [|c cs IH]; intros H; cbn [flat_map]; [constructor|].
+    apply StronglySorted_inv in H as (H & F). apply SS_app.
+    - apply SS_weaken with (R := lt); [|apply SS_filter, SS_seq].
+      intros a b Ha Hb Hab. apply filter_In in Ha as (_ & Ha), Hb as (_ & Hb).
+      apply Nat.eqb_eq in Ha, Hb. right. split; [congruence|assumption].
+    - auto.
+    - intros a b Ha Hb. apply filter_In in Ha as (_ & Ha). apply Nat.eqb_eq in Ha.
+      apply in_flat_map in Hb as (c' & Hc' & Hb). apply filter_In in Hb as (_ & Hb). apply Nat.eqb_eq in Hb.
+      rewrite Forall_forall in F. specialize (F c' Hc'). left. lia. }
+  apply G, SS_seq.
+Qed.
+
+Lemma chain_order_visits : forall n ch, visits_chainwise ch (chain_order n ch).
+Proof.
+  intros n ch l1 i l2 E j Hj (Hc & Hle).
+  pose proof (chain_order_sorted n ch) as S. rewrite E in S.
+  pose proof (SS_split _ _ _ _ _ S j Hj) as [H | (_ & H)]; lia.
+Qed.
+
+Lemma chain_le_max : forall ch i, chain_at ch i <= list_max ch.
+Proof.
+  intros ch i. unfold chain_at. destruct (Nat.lt_ge_cases i (List.length ch)) as [H|H].
+  - pose proof (proj1 (list_max_le ch (list_max ch)) (Nat.le_refl _)) as F.
+    rewrite Forall_forall in F. apply F. now apply nth_In.
+  - rewrite nth_overflow by assumption. lia.
+Qed.
+
+Lemma chain_order_In : forall n ch r, In r (chain_order n ch) <-> r < n.
+Proof.
+  intros n ch r. unfold chain_order. rewrite in_flat_map. split.
+  - intros (c & _ & H). apply filter_In in H as (H & _). apply in_seq in H. lia.
+  - intros H. exists (chain_at ch r). split.
+    + apply in_seq. pose proof (chain_le_max ch r). lia.
+    + apply filter_In. split; [apply in_seq; lia | apply Nat.eqb_refl].
+Qed.
+
+(* helix_flags marks i as a start of an s-turn exactly when the H-bond (i+s -> i) exists in one chain *)
+Lemma is_start_spec : forall n ch hb s i, 1 <= s ->
+  is_start (helix_flags n ch hb s) i = turnb n ch hb s i.
+Proof.
+  intros n ch hb s i Hs. unfold helix_flags.
+  rewrite (flags_fold n ch hb s Hs (chain_order n ch) [] (repeat HELIX_NONE n)).
+  - cbn [app]. destruct (turnb n ch hb s i) eqn:T; [|now rewrite andb_false_r].
+    rewrite andb_true_r. apply existsb_exists. exists i. split; [|apply Nat.eqb_refl].
+    apply chain_order_In. unfold turnb in T. apply andb_true_iff in T as (T & _).
+    apply andb_true_iff in T as (T & _). apply Nat.ltb_lt in T. lia.
+  - apply chain_order_visits.
+  - apply repeat_length.
+  - intros r. cbn [existsb andb]. unfold is_start, flag_at.
+    destruct (Nat.lt_ge_cases r n) as [H|H].
+    + now rewrite nth_repeat.
+    + rewrite nth_overflow; [reflexivity | now rewrite repeat_length].
+Qed.
+
+(* ------------------------------------------------------------------ the DSSP rules *)
+Lemma sec_at_repeat : forall n r, sec_at (repeat SS_LOOP n) r = SS_LOOP.
+Proof.
+  intros. unfold sec_at. destruct (Nat.lt_ge_cases r n); [now rewrite nth_repeat|].
+  rewrite nth_overflow; [reflexivity | now rewrite repeat_length].
+Qed.
+
+Lemma sec_at_out : forall sec r, List.length sec <= r -> sec_at sec r = SS_LOOP.
+Proof. intros. unfold sec_at. now apply nth_overflow. Qed.
+
+Section Rules.
+  Variables (n : nat) (ch : list nat) (skip : list bool) (hb : hbtable) (geom : list bool).
+
+  Definition secB : list ss := calculate_beta_sheets n ch skip hb (repeat SS_LOOP n).
+  Definition fl (s : nat) : list hflag := helix_flags n ch hb s.
+  Definition s1 := fold_left (helix_step (fl 4) 3 ok_alpha SS_ALPHAHELIX) (seq 1 (n - 4 - 1)) secB.
+  Definition s2 := fold_left (helix_step (fl 3) 2 ok_3 SS_HELIX_3) (seq 1 (n - 3 - 1)) s1.
+  Definition s3 := fold_left (helix_step (fl 5) 4 ok_5 SS_HELIX_5) (seq 1 (n - 5 - 1)) s2.
+
+  Lemma secB_length : List.length secB = n.
+  Proof. unfold secB. now rewrite beta_length, repeat_length. Qed.
+
+  (* E, B or blank after the sheet stage, decided by the final bridge list *)
+  Lemma secB_at : forall r, r < n ->
+    sec_at secB r =
+    if existsb (fun b => covers b r && is_ladder b) (ladders n ch skip hb) then SS_STRAND
+    else if existsb (fun b => covers b r) (ladders n ch skip hb) then SS_BETABRIDGE else SS_LOOP.
+  Proof.
+    intros r Hr. unfold secB, calculate_beta_sheets. rewrite marking_spec by now rewrite repeat_length.
+    now rewrite sec_at_repeat.
+  Qed.
+
+  Lemma secB_codes : forall r,
+    sec_at secB r = SS_STRAND \/ sec_at secB r = SS_BETABRIDGE \/ sec_at secB r = SS_LOOP.
+  Proof.
+    intros r. destruct (Nat.lt_ge_cases r n) as [H|H].
+    - rewrite secB_at by assumption. destruct (existsb _ _); auto. destruct (existsb _ _); auto.
+    - right; right. apply sec_at_out. now rewrite secB_length.
+  Qed.
+
+  Definition alphab (r : nat) : bool := stage_cov (fl 4) 3 ok_alpha secB (seq 1 (n - 4 - 1)) r.
+  Definition g3b (r : nat) : bool := stage_cov (fl 3) 2 ok_3 s1 (seq 1 (n - 3 - 1)) r.
+  Definition i5b (r : nat) : bool := stage_cov (fl 5) 4 ok_5 s2 (seq 1 (n - 5 - 1)) r.
+
+  Lemma s1_spec : List.length s1 = n /\
+    forall r, sec_at s1 r = if alphab r then SS_ALPHAHELIX else sec_at secB r.
+  Proof.
+    unfold s1, alphab.
+    destruct (stage_spec (fl 4) 3 ok_alpha SS_ALPHAHELIX eq_refl (seq 1 (n - 4 - 1)) secB) as (L & H).
+    { intros i Hi. apply in_seq in Hi. rewrite secB_length. lia. }
+    rewrite secB_length in L. split; assumption.
+  Qed.
+
+  Lemma s2_spec : List.length s2 = n /\
+    forall r, sec_at s2 r = if g3b r then SS_HELIX_3 else sec_at s1 r.
+  Proof.
+    destruct s1_spec as (L1 & _). unfold s2, g3b.
+    destruct (stage_spec (fl 3) 2 ok_3 SS_HELIX_3 eq_refl (seq 1 (n - 3 - 1)) s1) as (L & H).
+    { intros i Hi. apply in_seq in Hi. rewrite L1. lia. }
+    rewrite L1 in L. split; assumption.
+  Qed.
+
+  Lemma s3_spec : List.length s3 = n /\
+    forall r, sec_at s3 r = if i5b r then SS_HELIX_5 else sec_at s2 r.
+  Proof.
+    destruct s2_spec as (L2 & _). unfold s3, i5b.
+    destruct (stage_spec (fl 5) 4 ok_5 SS_HELIX_5 eq_refl (seq 1 (n - 5 - 1)) s2) as (L & H).
+    { intros i Hi. apply in_seq in Hi. rewrite L2. lia. }
+    rewrite L2 in L. split; assumption.
+  Qed.
+
+  (* secondary structure after the three helix loops, before turns and bends *)
+  Definition helix_code (r : nat) : ss :=
+    if i5b r then SS_HELIX_5 else if g3b r then SS_HELIX_3 else if alphab r then SS_ALPHAHELIX
+    else sec_at secB r.
+
+  Lemma s3_at : forall r, sec_at s3 r = helix_code r.
+  Proof.
+    intros r. unfold helix_code. rewrite (proj2 s3_spec), (proj2 s2_spec), (proj2 s1_spec). reflexivity.
+  Qed.
+
+  Lemma dssp_frame_at : forall r, r < n ->
+    sec_at (dssp_frame n ch skip hb geom) r =
+    turn_step n ch skip geom (fl 3) (fl 4) (fl 5) r (helix_code r).
+  Proof.
+    intros r Hr. unfold dssp_frame, calculate_alpha_helices. fold secB. fold (fl 3) (fl 4) (fl 5).
+    fold s1. fold s2. fold s3. unfold sec_at at 1. rewrite map_idx_nth by now rewrite (proj1 s3_spec).
+    cbn [Nat.add]. fold (sec_at s3 r). now rewrite s3_at.
+  Qed.
+End Rules.
